@@ -196,6 +196,11 @@ var richForms = []richForm{
 		return gen.Pick(c.R, []string{"SELECT rid FROM t1 WHERE n1 BETWEEN " + vf + "(n2) AND 100000", "SELECT rid, s1 FROM t1 WHERE n1 NOT BETWEEN -100000 AND " + vf + "(n2)",
 			"SELECT rid FROM t1 WHERE " + vf + "(n1) BETWEEN -100000 AND 100000 AND " + richPred(c, d, 1), "SELECT rid, (n1 BETWEEN " + vf + "(n2) AND 100000) AS inside FROM t1"})
 	}},
+	{"once", true, false, func(c *fw.Case, d *richDoc, vf string) string {
+		// a call made once per query (or per process run of the query): in the select list, in WHERE
+		return gen.Pick(c.R, []string{"SELECT rid, ONCE." + vf + "(7) AS o FROM t1", "SELECT rid FROM t1 WHERE ONCE." + vf + "(1) = 1",
+			"SELECT rid, ONCE." + vf + "(7) AS o, " + vf + "(n1) AS v FROM t1 WHERE n1 >= " + numConst(c, d)})
+	}},
 	{"where.bool", true, false, func(c *fw.Case, d *richDoc, vf string) string {
 		return "SELECT rid, s1 FROM t1 WHERE " + richPred(c, d, 1) + " AND " + vf + "(b1)"
 	}},
